@@ -53,7 +53,10 @@ _cfg_dir = None
 def config_path(text: str = INI) -> str:
     global _cfg_dir
     if _cfg_dir is None:
+        import atexit
+        import shutil
         _cfg_dir = tempfile.mkdtemp(prefix="rp2cfg_")
+        atexit.register(shutil.rmtree, _cfg_dir, True)
     p = os.path.join(_cfg_dir, f"cfg_{abs(hash(text))}.ini")
     with open(p, "w") as f:
         f.write(text)
